@@ -126,9 +126,9 @@ type errSite struct {
 func runC08(c *Ctx) {
 	P, R := c.P, c.R
 	R.Require("C08.errors", 14)
-	R.Require("C08.cause", 30)
-	R.Require("C08.excl", 8)
-	R.Require("C08.fullread", 9)
+	R.Require("C08.cause", 20)
+	R.Require("C08.excl", 5)
+	R.Require("C08.fullread", 4)
 	checkErrorsPkg(c)
 
 	fns := P.ModuleFuncs("rtmp", "flv")
@@ -237,6 +237,17 @@ func runC08(c *Ctx) {
 					direct = true
 				}
 			}
+			if !direct {
+				// the returns reached from the call all carry E (operands resolved along the path: the return sits at
+				// a merge of several such calls)
+				frs := returnsAfter(s.call)
+				direct = len(frs) > 0
+				for _, fr := range frs {
+					if !derivedFrom(fr.ops[ei], E, 0) {
+						direct = false
+					}
+				}
+			}
 			R.Check(direct, "C08.cause", base+"|checked", pos,
 				"the error of "+s.what+" is returned directly",
 				"the error of "+s.what+" is neither tested against nil nor returned", nil)
@@ -256,15 +267,16 @@ func runC08(c *Ctx) {
 				bad = fmt.Sprintf("return at %s yields %s", P.InstrPos(r), describeErrOperand(op))
 			}
 		}
+		var failRets []failReturn
 		if nret == 0 {
-			// the non-nil branch does not return (e.g. break): every return reachable from it must carry E
-			reach := core.ReachableBlocks(nn, nil)
-			for _, r := range core.Returns(s.fn) {
-				if reach[r.Block()] {
-					nret++
-					if !derivedFrom(core.ReturnOperand(r, ei), E, 0) {
-						bad = fmt.Sprintf("return at %s yields %s", P.InstrPos(r), describeErrOperand(core.ReturnOperand(r, ei)))
-					}
+			// the non-nil branch does not return at once (break, or the success path is nested under err == nil and both
+			// meet at one return): every return reached from the failure edge must carry E; the operands are resolved
+			// along the path (a phi takes the value of the edge the path came in by)
+			failRets = returnsFromEdge(tested.Block(), nonNilIdx)
+			for _, fr := range failRets {
+				nret++
+				if op := fr.ops[ei]; !derivedFrom(op, E, 0) {
+					bad = fmt.Sprintf("return at %s yields %s", P.InstrPos(fr.ret), describeErrOperand(op))
 				}
 			}
 		}
@@ -276,7 +288,7 @@ func runC08(c *Ctx) {
 			okx := true
 			detail := ""
 			for _, r := range core.Returns(s.fn) {
-				if !(nn == r.Block() || nn.Dominates(r.Block())) {
+				if !(nn == r.Block() || nn.Dominates(r.Block())) || failRets != nil {
 					continue
 				}
 				for i := range r.Results {
@@ -286,6 +298,14 @@ func runC08(c *Ctx) {
 					if !isZeroConst(core.ReturnOperand(r, i)) {
 						okx = false
 						detail = fmt.Sprintf("result #%d at %s is %s", i, P.InstrPos(r), core.Path(core.ReturnOperand(r, i)))
+					}
+				}
+			}
+			for _, fr := range failRets {
+				for i, op := range fr.ops {
+					if i != ei && !isZeroConst(op) {
+						okx = false
+						detail = fmt.Sprintf("result #%d at %s is %s", i, P.InstrPos(fr.ret), core.Path(op))
 					}
 				}
 			}
@@ -307,6 +327,91 @@ func runC08(c *Ctx) {
 		}
 	}
 	checkFullRead(c, "C08.fullread", "rtmp", "flv")
+}
+
+// failReturn is a return reached from one edge, with its operands resolved along the path taken.
+type failReturn struct {
+	ret *ssa.Return
+	ops []ssa.Value
+}
+
+// returnsFromEdge walks every path from the idx-th successor edge of block b to the returns it reaches; phis take the
+// value of the edge the path entered their block by, named results spilled to cells are read back (ReturnOperand).
+func returnsFromEdge(b *ssa.BasicBlock, idx int) []failReturn {
+	var out []failReturn
+	type key struct{ b, from *ssa.BasicBlock }
+	seen := map[key]bool{}
+	var walk func(blk, from *ssa.BasicBlock, env map[*ssa.Phi]ssa.Value)
+	walk = func(blk, from *ssa.BasicBlock, env map[*ssa.Phi]ssa.Value) {
+		k := key{blk, from}
+		if seen[k] || len(out) > 64 {
+			return
+		}
+		seen[k] = true
+		ne := env
+		for _, in := range blk.Instrs {
+			phi, ok := in.(*ssa.Phi)
+			if !ok {
+				break
+			}
+			for i, p := range blk.Preds {
+				if p == from {
+					v := phi.Edges[i]
+					if ph, isPhi := v.(*ssa.Phi); isPhi {
+						if r, ok := env[ph]; ok {
+							v = r
+						}
+					}
+					if &ne == &env || len(ne) == len(env) {
+						c := map[*ssa.Phi]ssa.Value{}
+						for a, b := range env {
+							c[a] = b
+						}
+						ne = c
+					}
+					ne[phi] = v
+				}
+			}
+		}
+		if r, ok := blk.Instrs[len(blk.Instrs)-1].(*ssa.Return); ok {
+			fr := failReturn{ret: r}
+			for i := range r.Results {
+				op := core.ReturnOperand(r, i)
+				if ph, isPhi := op.(*ssa.Phi); isPhi {
+					if v, ok := ne[ph]; ok {
+						op = v
+					}
+				}
+				fr.ops = append(fr.ops, op)
+			}
+			out = append(out, fr)
+			return
+		}
+		for _, s := range blk.Succs {
+			walk(s, blk, ne)
+		}
+	}
+	if idx < len(b.Succs) {
+		walk(b.Succs[idx], b, map[*ssa.Phi]ssa.Value{})
+	}
+	return out
+}
+
+// returnsAfter lists the returns reached after instruction in, operands resolved along each path.
+func returnsAfter(in ssa.Instruction) []failReturn {
+	b := in.Block()
+	if r, ok := b.Instrs[len(b.Instrs)-1].(*ssa.Return); ok {
+		fr := failReturn{ret: r}
+		for i := range r.Results {
+			fr.ops = append(fr.ops, core.ReturnOperand(r, i))
+		}
+		return []failReturn{fr}
+	}
+	var out []failReturn
+	for i := range b.Succs {
+		out = append(out, returnsFromEdge(b, i)...)
+	}
+	return out
 }
 
 func describeErrOperand(v ssa.Value) string {
@@ -428,34 +533,114 @@ func checkCompleteMessage(c *Ctx, fn *ssa.Function) {
 
 // checkItemAfterSuccess: every return whose item results are not all zero constants is dominated
 // by the success edge of the function's transport read.
-func checkItemAfterSuccess(c *Ctx, fn *ssa.Function, src string) {
-	P, R := c.P, c.R
-	ei := core.ErrResultIndex(fn)
-	var E ssa.Value
+// successSources lists the error values of fn whose being nil means "the transport read delivered everything": the error
+// of the primitive src itself, or of a module wrapper around it (a function that returns a nil error only under such a
+// test of its own).
+func successSources(fn *ssa.Function, src string, depth int) []ssa.Value {
+	var out []ssa.Value
 	core.EachInstr(fn, func(in ssa.Instruction) {
-		if call, ok := in.(*ssa.Call); ok {
-			if nme, isSrc := errorSource(&call.Call); isSrc && nme == src {
-				E, _ = errValueOf(call)
+		call, ok := in.(*ssa.Call)
+		if !ok {
+			return
+		}
+		if nme, isSrc := errorSource(&call.Call); isSrc && nme == src {
+			if E, _ := errValueOf(call); E != nil {
+				out = append(out, E)
+			}
+			return
+		}
+		if w := call.Call.StaticCallee(); w != nil && depth < 2 && core.InModule(w) && fullReadWrapper(w, src, depth+1) {
+			if E, _ := errValueOf(call); E != nil {
+				out = append(out, E)
 			}
 		}
 	})
-	n := 0
-	for _, r := range core.Returns(fn) {
-		nonzero := false
-		for i := range r.Results {
-			if i != ei && !isZeroConst(core.ReturnOperand(r, i)) {
-				nonzero = true
+	return out
+}
+
+// fullReadWrapper: every return of w that reports success (nil error operand on that path) lies behind E == nil for a
+// success source E of w.
+func fullReadWrapper(w *ssa.Function, src string, depth int) bool {
+	ei := core.ErrResultIndex(w)
+	if ei < 0 || len(w.Blocks) == 0 {
+		return false
+	}
+	srcs := successSources(w, src, depth)
+	if len(srcs) == 0 {
+		return false
+	}
+	for _, r := range core.Returns(w) {
+		for _, vc := range core.ValueCases(core.ReturnOperand(r, ei), r.Block()) {
+			if !core.IsNilConst(vc.Val) {
+				// E itself (possibly wrapped) is returned: nil exactly when the read succeeded
+				isSrc := false
+				for _, E := range srcs {
+					isSrc = isSrc || derivedFrom(vc.Val, E, 0)
+				}
+				if isSrc {
+					continue
+				}
+				// a freshly built error is never nil: a failure report
+				switch x := core.StripConv(vc.Val).(type) {
+				case *ssa.Call:
+					if f := x.Call.StaticCallee(); f != nil && (isModuleErrorsFn(f, errWrappers) || isModuleErrorsFn(f, map[string]bool{"errors.New": true, "errors.Errorf": true}) || core.FullName(f) == "errors.New" || core.FullName(f) == "fmt.Errorf") {
+						continue
+					}
+				case *ssa.Alloc, *ssa.MakeInterface:
+					continue
+				}
+				// any other error value may be nil while the read failed: treated like a success report
+			}
+			guarded := false
+			for _, a := range vc.Atoms {
+				for _, E := range srcs {
+					if a.Op == "==" && a.R == "nil" && a.LV == E {
+						guarded = true
+					}
+				}
+			}
+			if !guarded {
+				return false
 			}
 		}
-		if !nonzero {
+	}
+	return true
+}
+
+func checkItemAfterSuccess(c *Ctx, fn *ssa.Function, src string) {
+	P, R := c.P, c.R
+	ei := core.ErrResultIndex(fn)
+	srcs := successSources(fn, src, 0)
+	n := 0
+	for _, r := range core.Returns(fn) {
+		// the cases in which some result other than the error is not the zero value
+		type itemCase struct{ atoms []core.Atom }
+		var cases []itemCase
+		for i := range r.Results {
+			if i == ei {
+				continue
+			}
+			for _, vc := range core.ValueCases(core.ReturnOperand(r, i), r.Block()) {
+				if !isZeroConst(vc.Val) {
+					cases = append(cases, itemCase{vc.Atoms})
+				}
+			}
+		}
+		if len(cases) == 0 {
 			continue
 		}
 		n++
-		good := false
-		for _, a := range core.GuardAtoms(r.Block()) {
-			if a.Op == "==" && a.R == "nil" && E != nil && a.LV == E {
-				good = true
+		good := true
+		for _, ic := range cases {
+			ok := false
+			for _, a := range ic.atoms {
+				for _, E := range srcs {
+					if a.Op == "==" && a.R == "nil" && a.LV == E {
+						ok = true
+					}
+				}
 			}
+			good = good && ok
 		}
 		R.Check(good, "C08.excl", fmt.Sprintf("%s|%s|item-after-success#%d", core.ShortPkg(fn), core.FuncName(fn), n), P.InstrPos(r),
 			"an item is returned only after the transport read succeeded",
@@ -696,7 +881,7 @@ func wrapChain(P *core.Program, fn *ssa.Function, errP *ssa.Parameter) (bool, st
 		}
 		sel := P.SSA.MethodSets.MethodSet(types.NewPointer(named)).Lookup(named.Obj().Pkg(), "Cause")
 		if sel == nil {
-			return false, named.Obj().Name() + " has no Cause() method"
+			return false, core.TypeNameOf(named.Obj()) + " has no Cause() method"
 		}
 		cf := P.SSA.MethodValue(sel)
 		okF := false
@@ -706,9 +891,9 @@ func wrapChain(P *core.Program, fn *ssa.Function, errP *ssa.Parameter) (bool, st
 			}
 		}
 		if !okF {
-			return false, named.Obj().Name() + ".Cause() does not return the field the error is stored in (" + fv.Name() + ")"
+			return false, core.TypeNameOf(named.Obj()) + ".Cause() does not return the field the error is stored in (" + core.FieldVarName(fv) + ")"
 		}
-		layers = append(layers, named.Obj().Name()+"."+fv.Name())
+		layers = append(layers, core.TypeNameOf(named.Obj())+"."+core.FieldVarName(fv))
 		// next: the alloc as an interface value
 		cur = nil
 		for _, r := range *alloc.Referrers() {
@@ -734,7 +919,6 @@ func loadAddr(v ssa.Value) ssa.Value {
 	}
 	return v
 }
-
 
 // retained: the value is stored somewhere that outlives the call (a field, a global, a returned value), directly or
 // through a wrapper built from it.
